@@ -24,6 +24,10 @@ def zip_pairs(t):
             if b[0] == 'sub' and b[1] == a and b[2][0] == 'slice' and b[2][1] == ('const', 1) \
                     and b[2][2] == T.NONE and b[2][3] == T.NONE:
                 return a, t[2]
+            # zip(X, islice(X, 1, None))
+            if b[0] == 'call' and b[1].endswith('islice') and len(b[2]) == 3 and b[2][0] == a \
+                    and b[2][1] == ('const', 1) and b[2][2] == T.NONE:
+                return a, t[2]
     # the index form: for i in range(1, len(X)): X[i] ... X[i - 1]
     if t[0] == 'sub' and len(t) == 3:
         x, i = t[1], t[2]
